@@ -2,7 +2,7 @@
 //! Unit: regenerated copy of utils/src/merkle_tree/optimal_merkle_tree.rs with
 //! std::collections::HashMap rebound to the ArrMap model (bodies byte-identical).
 use crate::arrmap::ArrMap;
-use crate::gen::optimal_merkle_tree::OptimalMerkleTree;
+use crate::gen::optimal_merkle_tree::{OptimalMerkleProof, OptimalMerkleTree};
 use crate::toy::Toy;
 use crate::tree_body::*;
 use crate::vlib::*;
@@ -77,6 +77,12 @@ impl Build for T {
     }
 }
 
+impl MkProof for OptimalMerkleProof<Toy> {
+    fn mk(siblings: &[u64], bits: &[u8]) -> Self {
+        let mut v = Vec::with_capacity(bits.len()); let mut i = 0; while i < bits.len() { v.push((siblings[i], bits[i])); i += 1; } OptimalMerkleProof(v)
+    }
+}
+
 #[cfg(kani)]
 mod proofs {
     use super::*;
@@ -117,6 +123,20 @@ mod proofs {
     stepk!(opt_d2_c15_override_inrange, 2, OverrideInRange, OBS_C15, false, 10);
     // C07: proofs in an arbitrary state
     obsk!(opt_d2_c07_proofs, 2, OBS_C07, 10);
+    // C07 on arbitrary proof objects: path length fixed per harness (3, 10, 20 levels), siblings and bits symbolic
+    macro_rules! pobj {
+        ($name:ident, $len:expr, $unwind:expr) => {
+            #[kani::proof]
+            #[kani::unwind($unwind)]
+            fn $name() {
+                body_proof_object::<OptimalMerkleProof<Toy>, _>(&mut KaniSrc, $len, 255);
+                kani::cover!(true, "reached-end");
+            }
+        };
+    }
+    pobj!(opt_c07_proof_object_3, 3, 6);
+    pobj!(opt_c07_proof_object_10, 10, 12);
+    pobj!(opt_c07_proof_object_20, 20, 22);
     // ---- depth 1 ----
     stepk!(opt_d1_step_set, 1, Set, OBS_C06, true, 8);
     stepk!(opt_d1_step_delete, 1, Delete, OBS_C06, true, 8);
@@ -129,6 +149,10 @@ mod proofs {
     stepk!(opt_d1_override_witness_rembefore, 1, OverrideRemBefore, OBS_C08, false, 8);
     stepk!(opt_d1_override_witness_beyondcap, 1, OverrideBeyondCap, OBS_C08, false, 8);
     stepk!(opt_d1_c15_override_inrange, 1, OverrideInRange, OBS_C15, false, 8);
+    stepk!(opt_d1_c15_append, 1, Append, OBS_C15, false, 8);
+    stepk!(opt_d1_c15_set, 1, Set, OBS_C15, false, 8);
+    stepk!(opt_d1_c15_delete, 1, Delete, OBS_C15, false, 8);
+    stepk!(opt_d1_c15_setrange, 1, SetRange, OBS_C15, false, 8);
     obsk!(opt_d1_c07_proofs, 1, OBS_C07, 8);
     // ---- depth 3 (thorough) ----
     stepk!(opt_d3_step_set, 3, Set, OBS_C06, false, 18);
